@@ -22,6 +22,8 @@ NOT_DECIDED = "nothing further at this level; descriptors pending at a parse err
 BAD = ("try_clone", "dup", "dup2", "into_raw_fd", "forget", "leak", "from_raw_fd", "as_raw_fd", "into_raw")
 REORDER = ("rev", "sort", "sort_by", "sort_unstable", "swap", "filter", "skip", "step_by", "reverse", "dedup", "retain", "take", "swap_remove", "pop", "rotate_left", "rotate_right")
 
+POSITIVE_CONTROLS = [("R12.4", "apis")]
+
 
 def run(ctx):
     ctx.rule("R12.1", "one File::from_raw_fd, mapped once over the first fd_count entries of the array the receive filled (253 entries)")
